@@ -174,9 +174,13 @@ class Interp(ExprMixin, StmtMixin, CallMixin, BuiltinMixin):
         try:
             for it in c.modifies:
                 node = ast.parse(it, mode="eval").body
-                if isinstance(node, ast.Call) and isinstance(node.func, ast.Name) and node.func.id in ("elems", "contents"):
+                if isinstance(node, ast.Call) and isinstance(node.func, ast.Name) and node.func.id == "allcontents":
+                    allowed[ctx._el_key(parse_type(node.args[0].id))] = None
+                elif isinstance(node, ast.Call) and isinstance(node.func, ast.Name) and node.func.id in ("elems", "contents"):
                     lst = self.ev(node.args[0], True)
                     ety = lst.ty.base.args[0]
+                    if allowed.get(ctx._el_key(ety), []) is None:
+                        continue
                     allowed.setdefault(ctx._el_key(ety), []).append(lst.term)
                     if node.func.id == "elems":
                         allowed.setdefault("len", []).append(lst.term)
